@@ -57,7 +57,7 @@ pub fn generate(ctx: &mut Ctx) {
             bi += 1;
         }
     }
-    let n = ctx.by_tier(300_000u64, 3_000_000u64) / ctx.nshards;
+    let n = ctx.by_tier(300_000u64, 12_000_000u64) / ctx.nshards;
     for i in 0..n {
         let mut rng = ctx.rng("res", i);
         let mut o = gen::Opts::new(rng.chance(1, 2));
